@@ -693,18 +693,31 @@ type recHandlers struct {
 	rec *recorder
 	get *getsvc.Service
 	put *putsvc.Service
+	// onRead, when set, runs once at the entry of the next read handler: the world changes between
+	// the server's access checks and the data service (e.g. a replica of the object arrives).
+	onRead func()
+}
+
+func (x *recHandlers) hook() {
+	if f := x.onRead; f != nil {
+		x.onRead = nil
+		f()
+	}
 }
 
 func (x *recHandlers) Get(ctx context.Context, p getsvc.Prm) error {
 	x.rec.add(effHandler + "get")
+	x.hook()
 	return x.get.Get(ctx, p)
 }
 func (x *recHandlers) Head(ctx context.Context, p getsvc.HeadPrm) error {
 	x.rec.add(effHandler + "head")
+	x.hook()
 	return x.get.Head(ctx, p)
 }
 func (x *recHandlers) GetRange(ctx context.Context, p getsvc.RangePrm) error {
 	x.rec.add(effHandler + "range")
+	x.hook()
 	return x.get.GetRange(ctx, p)
 }
 func (x *recHandlers) Put(ctx context.Context) (*putsvc.Streamer, error) {
@@ -1015,16 +1028,29 @@ type fakeSearchStream struct{ fakeStream }
 
 func (s *fakeSearchStream) Send(m *protoobject.SearchResponse) error { return s.SendMsg(m) }
 
+// fakePutStreamHook runs f right before message #at of a Put stream is delivered to the server
+// (the world changes in the middle of a client stream).
+type fakePutStreamHook struct {
+	at int
+	f  func()
+}
+
+var putHook *fakePutStreamHook // consumed by the next Put call
+
 type fakePutStream struct {
 	fakeStream
 	reqs []*protoobject.PutRequest
 	pos  int
 	resp *protoobject.PutResponse
+	hook *fakePutStreamHook
 }
 
 func (s *fakePutStream) Recv() (*protoobject.PutRequest, error) {
 	if s.pos >= len(s.reqs) {
 		return nil, io.EOF
+	}
+	if s.hook != nil && s.hook.at == s.pos {
+		s.hook.f()
 	}
 	s.pos++
 	return s.reqs[s.pos-1], nil
@@ -1259,7 +1285,7 @@ func callRPC(ctx context.Context, info rpcInfo, req any) (out rpcOutcome) {
 		if !ok || mt.In(0) != reflect.TypeOf((*protoobject.ObjectService_PutServer)(nil)).Elem() {
 			panic(fmt.Sprintf("objsvc harness: no fake client stream for %s (%v, request %T)", info.name, mt.In(0), req))
 		}
-		s := &fakePutStream{fakeStream: fakeStream{ctx: ctx}, reqs: reqs}
+		s := &fakePutStream{fakeStream: fakeStream{ctx: ctx}, reqs: reqs, hook: putHook}
 		rets := info.method.Call([]reflect.Value{reflect.ValueOf(s)})
 		if e, _ := rets[0].Interface().(error); e != nil {
 			out.rpcErr = e
@@ -1337,6 +1363,19 @@ type simObject struct {
 	cnr    int  // container index
 	local  bool // stored in the local engine (else only on the remote node)
 	secret bool // carries the attribute the header-dependent eACL rule denies
+	late   bool // stored nowhere yet: a replica may arrive locally between the access checks and the read
+}
+
+// arriveLocally stores a late object in the local engine (not recorded: it is the world acting,
+// e.g. a replication that lands concurrently with the request being served).
+func (w *objWorld) arriveLocally(so *simObject) {
+	was := w.blobOn
+	w.blobOn = false
+	if err := w.eng.Put(context.Background(), so.obj, nil); err != nil {
+		panic(fmt.Sprintf("objsvc harness: late object arrival: %v", err))
+	}
+	w.blobOn = was
+	so.late, so.local = false, true
 }
 
 type objWorld struct {
@@ -1352,6 +1391,7 @@ type objWorld struct {
 	hasShard bool
 
 	eng      *engine.StorageEngine
+	handlers *recHandlers
 	objStore *recObjectStorage
 	putSvc   *putsvc.Service
 	getSvc   *getsvc.Service
@@ -1432,7 +1472,8 @@ func newObjWorld(r *simkit.R, cfg worldCfg) *objWorld {
 	w.remote = &remoteObjects{rec: w.rec, objs: map[oid.Address]*object.Object{}, node: w.nodes[1]}
 	setRemote(w.remote)
 	r.OnCleanup(func() { setRemote(nil) })
-	w.srv = New(&recHandlers{rec: w.rec, get: w.getSvc, put: w.putSvc}, sc, w.storage, processMeta(), nodeKey, nopMetricsV{},
+	w.handlers = &recHandlers{rec: w.rec, get: w.getSvc, put: w.putSvc}
+	w.srv = New(w.handlers, sc, w.storage, processMeta(), nodeKey, nopMetricsV{},
 		checker, w.aclSvc, clients, zap.NewNop())
 	w.rpcs = enumerateRPCs(w.srv)
 	return w
@@ -1476,7 +1517,16 @@ func (w *objWorld) addContainer(i int, basic acl.Basic) cid.ID {
 
 // newObject makes a valid signed regular object of the container.
 func (w *objWorld) newObject(ci int, signer user.Signer, payload []byte, attrs ...[2]string) *object.Object {
-	o := object.New(w.cnrIDs[ci], signer.UserID())
+	return w.newObjectIn(w.cnrIDs[ci], signer.UserID(), signer, payload, attrs...)
+}
+
+// keyWithID signs with key's private key but claims id's user ID.
+func keyWithID(key, id *actor) user.Signer {
+	return user.NewSigner(neofsecdsa.SignerRFC6979(key.ecdsa()), id.id)
+}
+
+func (w *objWorld) newObjectIn(cnr cid.ID, owner user.ID, signer neofscrypto.Signer, payload []byte, attrs ...[2]string) *object.Object {
+	o := object.New(cnr, owner)
 	ver := version.Current()
 	o.SetVersion(&ver)
 	o.SetCreationEpoch(w.epoch())
